@@ -19,7 +19,7 @@
      starts_minus s     the first byte of s is '-'
    NOT COVERED: exp, ln, log (the model answers Unk: transcendental_not_modelled);
    abs of more than 34 digits, ceil beyond 10^16 (16-digit rounding, see
-   ceil_refuted_beyond_16_digits); toInt and the bit operators outside the int64 range (Unk). *)
+   ceil_refuted_beyond_16_digits); the bit operators outside the int64 range (Unk). *)
 From Coq Require Import String Ascii QArith Qabs.
 From Formula Require Import Num.Sqrt Sem.Eval Proofs.DecVal Proofs.NumTextFacts Proofs.BuiltinNumFacts Proofs.SqrtFacts.
 Local Open Scope Z_scope.
@@ -181,7 +181,8 @@ Theorem transcendental_not_modelled : forall off d,
   builtin_apply off (str "log") [VNum d] = Unk.
 Proof. exact BuiltinNumFacts.transcendental_not_modelled. Qed.
 
-(* ---- toInt truncates toward zero (when the truncation `trunc_dec x` fits int64) ---- *)
+(* ---- toInt truncates toward zero: within int64 the result is built from the integer
+   (`dec_of_Z`), beyond it the decimal itself is truncated (`to_int_dec`, Sem/Eval.v) ---- *)
 
 Theorem toInt_truncates : forall off x, is_finite x = true -> dec_wf x = true ->
   -9223372036854775808 <= trunc_dec x <= 9223372036854775807 -> exists T,
@@ -190,10 +191,52 @@ Theorem toInt_truncates : forall off x, is_finite x = true -> dec_wf x = true ->
   ((0 <= dec_val x)%Q -> 0 <= T) /\ ((dec_val x <= 0)%Q -> T <= 0).
 Proof. exact BuiltinNumFacts.toInt_truncates. Qed.
 
-Theorem toInt_out_of_range : forall off x, is_finite x = true ->
-  ~ (-9223372036854775808 <= trunc_dec x <= 9223372036854775807) ->
-  builtin_apply off (str "toInt") [VNum x] = Unk.
-Proof. exact BuiltinNumFacts.toInt_out_of_range. Qed.
+(* beyond int64 (`to_i64_opt (Fin n c e) = None` iff the truncation does not fit, see
+   toInt_beyond_int64_iff): the number itself when it has no fraction digits, otherwise the
+   coefficient divided by the power of ten, exponent 0 *)
+Theorem toInt_beyond_int64 : forall off n c e, to_i64_opt (Fin n c e) = None ->
+  (0 <= e -> builtin_apply off (str "toInt") [VNum (Fin n c e)] = Ok (VNum (Fin n c e))) /\
+  (e < 0 -> builtin_apply off (str "toInt") [VNum (Fin n c e)] = Ok (VNum (Fin n (c / pow10 (- e)) 0))).
+Proof. exact BuiltinNumFacts.toInt_beyond_int64. Qed.
+
+Theorem toInt_beyond_int64_iff : forall n c e,
+  (to_i64_opt (Fin n c e) = Some (trunc_dec (Fin n c e)) <->
+     -9223372036854775808 <= trunc_dec (Fin n c e) <= 9223372036854775807) /\
+  (to_i64_opt (Fin n c e) = None <->
+     ~ (-9223372036854775808 <= trunc_dec (Fin n c e) <= 9223372036854775807)).
+Proof. exact BuiltinNumFacts.to_i64_opt_fin_iff. Qed.
+
+(* toInt is `to_int_dec` on every number, and its value is the truncation toward zero of the
+   argument, within int64 and beyond (0 for NaN and the infinities) *)
+Theorem toInt_is_to_int_dec : forall off d,
+  builtin_apply off (str "toInt") [VNum d] = Ok (VNum (to_int_dec d)).
+Proof. exact BuiltinNumFacts.ba_toInt_num. Qed.
+
+Theorem to_int_dec_trunc : forall d, trunc_dec (to_int_dec d) = trunc_dec d.
+Proof. exact BuiltinNumFacts.to_int_dec_trunc. Qed.
+
+Theorem to_int_dec_in_range : forall d a, to_i64_opt d = Some a -> to_int_dec d = dec_of_Z a.
+Proof. exact BuiltinNumFacts.to_int_dec_in_range. Qed.
+
+(* the same against the rational the argument denotes, for every finite number: the result r is an
+   integer-valued decimal whose value T is the truncation toward zero of x *)
+Theorem toInt_spec : forall off x, is_finite x = true -> dec_wf x = true -> exists r T,
+  builtin_apply off (str "toInt") [VNum x] = Ok (VNum r) /\ r = to_int_dec x /\
+  T = trunc_dec x /\ trunc_dec r = T /\ is_integer_dec r = true /\ dec_wf r = true /\
+  (dec_val r == inject_Z T)%Q /\
+  (Qabs (inject_Z T) <= Qabs (dec_val x))%Q /\ (Qabs (dec_val x) < Qabs (inject_Z T) + 1)%Q /\
+  ((0 <= dec_val x)%Q -> 0 <= T) /\ ((dec_val x <= 0)%Q -> T <= 0).
+Proof. exact BuiltinNumFacts.toInt_spec. Qed.
+
+(* toInt(-19.99) = -19, toInt("42.9") = 42, toInt(1e25) = 1e25,
+   toInt(-12345678901234567890.5) = -12345678901234567890 *)
+Theorem toInt_examples :
+  builtin_apply 0 (str "toInt") [VNum (Fin true 1999 (-2))] = Ok (VNum (dec_of_Z (-19))) /\
+  builtin_apply 0 (str "toInt") [VStr (str "42.9")] = Ok (VNum (dec_of_Z 42)) /\
+  builtin_apply 0 (str "toInt") [VNum (Fin false 1 25)] = Ok (VNum (Fin false 1 25)) /\
+  builtin_apply 0 (str "toInt") [VNum (Fin true 123456789012345678905 (-1))] = Ok (VNum (Fin true 12345678901234567890 0)) /\
+  to_i64_opt (Fin false 1 25) = None /\ to_i64_opt (Fin true 123456789012345678905 (-1)) = None.
+Proof. exact BuiltinNumFacts.ex_toInt. Qed.
 
 Theorem toInt_nonfinite : forall off n,
   builtin_apply off (str "toInt") [VNum (Inf n)] = Ok (VNum dec_zero) /\
@@ -405,7 +448,13 @@ Print Assumptions sqrt_monotone.
 Print Assumptions sqrt_depends_on_the_value_only.
 Print Assumptions transcendental_not_modelled.
 Print Assumptions toInt_truncates.
-Print Assumptions toInt_out_of_range.
+Print Assumptions toInt_beyond_int64.
+Print Assumptions toInt_beyond_int64_iff.
+Print Assumptions toInt_is_to_int_dec.
+Print Assumptions to_int_dec_trunc.
+Print Assumptions to_int_dec_in_range.
+Print Assumptions toInt_spec.
+Print Assumptions toInt_examples.
 Print Assumptions toInt_nonfinite.
 Print Assumptions toInt_string.
 Print Assumptions toFloat_spec.
